@@ -212,6 +212,8 @@ def parse_out(path):
             cur[k] = int(t[2])
         elif k in ("rcond", "rpg", "direct_rpg", "direct_maxabs"):
             cur[k] = _fl(t[2])
+        elif k == "factored2":
+            cur["factored2"] = (int(t[2]), _fl(t[3]), int(t[4]))
         elif k == "lacon_final":
             cur["lacon_final"] = (int(t[2]), _fl(t[3]), int(t[4]))
         elif k == "lacon_isgn":
